@@ -178,6 +178,68 @@ def Prog.safe (p : Prog) : Prop :=
 /-- the op sequence does not call `cleanup()` at top level -/
 def NoCleanupOps (ops : List Op) : Prop := ∀ op ∈ ops, op ≠ .cleanup
 
+instance (ops : List Op) : Decidable (NoCleanupOps ops) := by unfold NoCleanupOps; exact inferInstance
+
+instance (p : Prog) : Decidable p.safe := by unfold Prog.safe; exact inferInstance
+
+def NoCleanupT (ops : List TOp) : Prop := ∀ op ∈ ops, op ≠ .op .cleanup
+
+/-- the object has been cleaned up: nothing pending, nothing monitored, timer off -/
+def Cleaned (s : Rpc) : Prop :=
+  s.dead = true ∧ s.pending = [] ∧ s.ring = [] ∧ s.vn = 0 ∧ s.timerOn = false
+
+instance (s : Rpc) : Decidable (Cleaned s) := by unfold Cleaned; exact inferInstance
+
+/-- the monitor invariant: every pending id is in the ring, `value_number_` is the ring's size, the
+1-s timer is enabled iff something is monitored -/
+def Monitored (s : Rpc) : Prop :=
+  (∀ e ∈ s.pending, e.1 ∈ s.ring.flatten) ∧ s.vn = s.ring.flatten.length ∧ (s.timerOn = true ↔ 0 < s.vn)
+
+instance (s : Rpc) : Decidable (Monitored s) := by unfold Monitored; exact inferInstance
+
+/-! ### the code as found, for the counterexamples -/
+
+/-- `TimeoutMonitor::onTimerTick` before patches/C14-06: the sweep calls the member `cb_` itself, which
+a `cleanup()` made by one timeout callback clears — the next id calls an empty `std::function`
+(`std::bad_function_call` leaves `onTimerTick`): the `Bool` -/
+def Rpc.completeAllOrig (s : Rpc) (code : Int) : List Nat → Rpc × List REv × Bool
+  | [] => (s, [], false)
+  | id :: ids =>
+    if s.dead then (s, [], true)
+    else
+      let r1 := s.complete id code
+      let r2 := Rpc.completeAllOrig r1.1 code ids
+      (r2.1, r1.2 ++ r2.2.1, r2.2.2)
+
+def Rpc.tickOrig (s : Rpc) : Rpc × List REv × Bool :=
+  match s.ring with
+  | [] => (s, [], false)
+  | cur :: rest =>
+    match rest ++ [cur] with
+    | [] => (s, [], false)
+    | items :: others =>
+      let vn' := s.vn - items.length
+      Rpc.completeAllOrig { s with ring := [] :: others, vn := vn', timerOn := if vn' = 0 then false else s.timerOn }
+        kRequestTimeout items
+
+/-- `Rpc::onRecvRequest` before patches/C14-07: after the handler returned the object is used without
+asking whether the handler cleaned it up (`respond()` dereferences the null `proto_`; the async branch
+adds to a cleaned-up monitor): `.misuse` -/
+def Rpc.onRequestOrig (s : Rpc) (id : Int) (m : Nat) : Rpc × List REv :=
+  match (s.services.getD m none).bind (fun h => (s.prog.hs[h]?).map (fun hd => (h, hd))) with
+  | none => (s, [.answered id kMethodNotFound])
+  | some (h, hd) =>
+    if id ≠ 0 then
+      let s1 := { s with srv := s.srv.insert id }
+      let r := s1.runActs id hd.acts
+      match hd.ret with
+      | .sync code => let r2 := r.1.apiRespond id code; (r2.1, .called id h :: (r.2 ++ r2.2))
+      | .async => if r.1.dead then (r.1, .called id h :: (r.2 ++ [.misuse]))
+                  else ({ r.1 with srv := r.1.srv.monitorAdd id }, .called id h :: r.2)
+    else
+      let r := s.runActs 0 hd.acts
+      (r.1, .called 0 h :: r.2)
+
 /-! ### two peers: the op sequence one peer sees of a world run -/
 
 /-- ops applied to peer b (`onB = true`) or a by one world op -/
